@@ -8,4 +8,6 @@ import PGV.Props.C16
 #print axioms PGV.Props.C16.C16_fn_global_second
 #print axioms PGV.Props.C16.C16_fn_builtin_last
 #print axioms PGV.Props.C16.C16_unknown_continues
+#print axioms PGV.Props.C16.C16_type_marker_not_printed
+#print axioms PGV.Props.C16.C16_look_alike_types_distinct
 #print axioms PGV.Props.C16.C16_rule_table
